@@ -179,8 +179,13 @@ fn draw_steps(rng: &mut Rng, index: u64) -> Vec<Step> {
         let mut tries = 0;
         while v.len() < want && tries < 20 {
             tries += 1;
-            let it = draw_item(rng);
+            let mut it = draw_item(rng);
             if !it.nondet {
+                // items over a flat file set are, a third of the time, compiled through
+                // FsLoader::for_cwd() after a chdir (the reference in the same way)
+                if it.cwd.is_empty() && !it.files.is_empty() && it.files.keys().all(|k| !k.starts_with('/') && !k.contains("..")) && rng.chance(1, 3) {
+                    it.via_cwd = true;
+                }
                 v.push(it);
             }
         }
@@ -198,7 +203,11 @@ fn draw_steps(rng: &mut Rng, index: u64) -> Vec<Step> {
             // a predecessor that is another input over the same files as a subject
             sib
         } else {
-            draw_item(rng)
+            let mut it = draw_item(rng);
+            if it.cwd.is_empty() && !it.files.is_empty() && it.files.keys().all(|k| !k.starts_with('/') && !k.contains("..")) && rng.chance(1, 4) {
+                it.via_cwd = true;
+            }
+            it
         };
         let mut plan = FaultPlan::default();
         if !as_subject && !item.files.is_empty() && rng.chance(1, 4) {
